@@ -402,21 +402,32 @@ func (ex *Exec) applyContract(fr *Frame, st *State, ct *Contract, key string, na
 			penv.vars[k] = v
 		}
 		ex.bindResult(penv, res, resT)
-		for _, e := range ct.Ensures {
-			g := ex.evalBool(e, penv)
-			ex.sc.Assert(Implies(fr.blockPC, g))
-		}
+		ex.assumeEnsures(fr, ct, key, penv)
 	} else {
 		penv := ex.newEnv(fr, st, old)
 		for k, v := range env.vars {
 			penv.vars[k] = v
 		}
-		for _, e := range ct.Ensures {
-			g := ex.evalBool(e, penv)
-			ex.sc.Assert(Implies(fr.blockPC, g))
-		}
+		ex.assumeEnsures(fr, ct, key, penv)
 	}
 	return res
+}
+
+// assumeEnsures assumes the callee's postconditions at a call site. A clause
+// that is a known finding (not proved for the inputs in its `when`) is only
+// assumed outside the carve-out, so callers never rest on a refuted fact.
+func (ex *Exec) assumeEnsures(fr *Frame, ct *Contract, key string, penv *Env) {
+	for i, e := range ct.Ensures {
+		g := ex.evalBool(e, penv)
+		if k := knownFor(key + "#ensures:" + clauseName(e, i)); k != nil {
+			when := tTrue
+			if k.whenExpr != nil {
+				when = ex.term(ex.eval(k.whenExpr, penv).V, SBool)
+			}
+			g = Or(when, g)
+		}
+		ex.sc.Assert(Implies(fr.blockPC, g))
+	}
 }
 
 func (ex *Exec) bindResult(env *Env, res Val, resT types.Type) {
